@@ -592,13 +592,9 @@ func (d *Driver) Check(e *mc.Env, s *mc.State) []mc.Finding {
 
 	// pending queue = exactly the requests that are still waiting for their block
 	byKey := map[string]*req{}
-	maxDue := s.Ctx.BlockHeight() + 1
 	for i := range m.reqs {
 		r := &m.reqs[i]
 		byKey[qkey(mc.Addr(r.Consumer).String(), r.Height, r.Oracle, r.TxHash)] = r
-		if r.Due > maxDue {
-			maxDue = r.Due
-		}
 	}
 	check := func(height int64, label string) {
 		res, err := e.Random.RandomRequestQueue(s.Ctx, &randomtypes.QueryRandomRequestQueueRequest{Height: height})
@@ -632,8 +628,25 @@ func (d *Driver) Check(e *mc.Env, s *mc.State) []mc.Finding {
 			}
 		}
 	}
+	// the all-heights query covers every height; by-height queries are made for every due height of the path
+	// (before and after processing) and for the heights around the current one
 	check(0, "RandomRequestQueue(all heights)")
-	for q := int64(1); q <= maxDue+1; q++ {
+	hs := map[int64]bool{}
+	for _, r := range m.reqs {
+		hs[r.Due] = true
+		hs[r.Height] = true
+	}
+	for q := s.Ctx.BlockHeight() - 1; q <= s.Ctx.BlockHeight()+1; q++ {
+		hs[q] = true
+	}
+	var heights []int64
+	for q := range hs {
+		if q >= 1 {
+			heights = append(heights, q)
+		}
+	}
+	sort.Slice(heights, func(i, j int) bool { return heights[i] < heights[j] })
+	for _, q := range heights {
 		check(q, fmt.Sprintf("RandomRequestQueue(height %d)", q))
 	}
 
